@@ -158,7 +158,10 @@ def raising(tree, **params):
     for subtree in trees.preorder(tree):
         if subtree != tree:
             if subtree.data['split']:
-                if not subtree.data['head_block']:
+                # only nodes with children can be dissolved (a split node may
+                # have become a leaf, e.g. by collapsing unary chains)
+                if not subtree.data['head_block'] \
+                   and trees.has_children(subtree):
                     removal.append(subtree)
     for subtree in removal:
         parent = subtree.parent
